@@ -886,6 +886,15 @@ def _unroll_ref_array(b, lhs, val):
 def _phi_places(b, lhs, entry):
     """places (paths relative to entry) a store target may denote when it is `*r` with r = Some(&mut a) | Some(&mut b) | None taken apart: list of paths, or None"""
     t = mir.unref(lhs)
+    if t[0] == "phi":
+        # `A(x) | B(x) | C(x) => { *x = .. }`: an or-pattern binds the same name to one place per alternative
+        out = []
+        for a in t[1]:
+            ap = paths.access_path(b, a, roots={entry})
+            if ap is None or ap[0] != entry:
+                return None
+            out.append(paths.norm(ap[1]))
+        return out or None
     # (phi(..) as Some).0
     if not (t[0] == "field" and t[1][0] == "downcast" and t[1][3] == "Some" and t[1][1][0] == "phi"):
         return None
